@@ -429,6 +429,18 @@ class SymStr(Sym):
     def length(self):
         return SymInt(z3.Length(self.term))
 
+    def __lt__(self, o):
+        return SymBool(_s(self) < _s(o))
+
+    def __le__(self, o):
+        return SymBool(_s(self) <= _s(o))
+
+    def __gt__(self, o):
+        return SymBool(_s(o) < _s(self))
+
+    def __ge__(self, o):
+        return SymBool(_s(o) <= _s(self))
+
     __hash__ = Sym.__hash__
 
 
